@@ -12,7 +12,7 @@ class C20(LoopCheck):
     props = {"C20"}
     flows = ("rng",)
     adaptive_N3 = ()
-    required_labels = ["c20/no_fresh_generator", "c20/user_generator_used", "c20/identical/ladder"]
+    required_labels = ["c20/no_fresh_generator", "c20/user_generator_used", "c20/identical/ladder", "c20/generator_routed_unchanged"]
 
     def configs(self, tier):
         out = []
@@ -30,9 +30,19 @@ class C20(LoopCheck):
                 out.append(c2)
         return out
 
+    def replay(self, cex):
+        ok, msg = super().replay(cex)
+        if cex.get("label") == "c20/generator_routed_unchanged":
+            # this clause is decided by its own observation only (D10 symptoms on the
+            # same run are a different matter)
+            ok = "not the user's object" in msg
+        return ok, msg
+
     def finding_of(self, cex):
         cfg = cex["cfg"]
         info = cex.get("_info") or {}
+        if cex.get("label") == "c20/generator_routed_unchanged":
+            return None
         if cfg.get("rng_via") in ("ctor", "aspire") and cfg["sampler"] == "MiniPCNSMC" and info.get("fresh", 0) >= 1 and info.get("user_draws") == 0:
             return "C20-D10"
         return None
